@@ -609,6 +609,42 @@ func genC05(tier string, rng *Rng) []Case {
 		}
 		out = append(out, mkCacheCase([]Rule{rule}, g.ops, nil))
 	}
+	// a stored answer that is not a 200 (an error page, a redirect that is not followed) is asked for again with a
+	// Range header: no partial response can be announced for it, so all of it must arrive, under its own length
+	for i := 0; i < n/8+len(c05Statuses); i++ {
+		g := &histGen{rng: rng}
+		st := c05Statuses[i%len(c05Statuses)]
+		if st == 200 || st == 206 || st == 204 || st == 304 {
+			st = rng.Pick2([]int{404, 301, 400, 403, 410, 302})
+		}
+		body := bigBody(rng.Pick2([]int{1, 7, 22, 1000, 32*1024 + 1}))
+		hdrs := []KV{{"Content-Type", "text/plain"}, {"Cache-Control", rng.Pick([]string{"max-age=60", "max-age=60", "public, max-age=600", "s-maxage=30"})}}
+		if rng.Chance(70, 100) {
+			hdrs = append(hdrs, KV{"Content-Length", fmt.Sprint(len(body))})
+		}
+		if st >= 300 && st < 400 {
+			hdrs = append(hdrs, KV{"Location", "http://elsewhere.test/next"})
+		}
+		if rng.Chance(30, 100) {
+			hdrs = append(hdrs, KV{"Etag", "\"e1\""})
+		}
+		g.script(Behaviour{Status: st, Hdrs: hdrs, Body: body})
+		rg := func() KV {
+			return KV{"Range", rng.Pick([]string{"bytes=3-6", "bytes=0-0", "bytes=-4", "bytes=5-", "bytes=0-99999", "bytes=2-1", "bytes=40000-"})}
+		}
+		if rng.Bool() {
+			g.req("GET", "/c/x")
+		} else {
+			g.req("GET", "/c/x", rg()) // the request that fills the entry carries the range
+		}
+		g.adv(1)
+		g.req("GET", "/c/x", rg())
+		if rng.Chance(30, 100) {
+			g.req("HEAD", "/c/x", rg())
+		}
+		g.req("GET", "/c/x")
+		out = append(out, mkCacheCase([]Rule{cacheRule()}, g.ops, nil))
+	}
 	// a resource that starts to vary by Origin: stored once for everybody, expired, and refreshed by a request with an
 	// Origin whose answer now says Vary: Origin - the refresh moves the entry to that Origin's key
 	for i := 0; i < n/10+1; i++ {
@@ -690,7 +726,15 @@ func genC15Hist(tier string, rng *Rng) []Case {
 				if !chunked {
 					hdrs = append(hdrs, KV{"Content-Length", fmt.Sprint(n)})
 				}
-				g.script(Behaviour{Status: 200, Hdrs: hdrs, Body: body})
+				st15 := 200
+				if n >= 3 && rng.Chance(15, 100) {
+					// a stored error page or unfollowed redirect: never partial, always whole
+					st15 = rng.Pick2([]int{404, 301, 410, 400})
+					if st15 == 301 {
+						hdrs = append(hdrs, KV{"Location", "http://elsewhere.test/next"})
+					}
+				}
+				g.script(Behaviour{Status: st15, Hdrs: hdrs, Body: body})
 				mkRange := func() string {
 					a, b := rng.Intn(maxV+1), rng.Intn(maxV+1)
 					switch rng.Intn(8) {
